@@ -176,7 +176,7 @@ def replay(ctx, case, kind=None, where=None):
             exs.append(e)
         stream_warc(ctx, [exs, exs])
     else:
-        with_filter(ctx, lambda: c08.replay(ctx, case, kind, where))
+        with_filter(ctx, lambda: c08._replay(ctx, case, kind, where))
 
 
 def with_filter(ctx, thunk):
@@ -201,7 +201,7 @@ def run(ctx):
     def decode_part():
         cache = {}
         batch = []
-        for i in range(ctx.scale(300, 5000)):
+        for i in range(ctx.scale(300, 2500)):
             m = H.gen_message(rng)
             for tag, data, eof in c08.variants(rng, m, thorough):
                 batch.append((m, tag, data, eof, c08.cutsets(rng, len(data), thorough) if len(data) <= 12000
@@ -213,7 +213,7 @@ def run(ctx):
         c08.stream_decode(ctx, batch, thorough, cache)
     with_filter(ctx, decode_part)
     wrng = ctx.subrng('warc')
-    stream_warc(ctx, [gen_exchanges(wrng) for _ in range(ctx.scale(250, 5000))])
+    stream_warc(ctx, [gen_exchanges(wrng) for _ in range(ctx.scale(250, 3000))])
 
 
 def search(ctx):
